@@ -1,4 +1,5 @@
 import AgdbCodec.Model.Conv
+import AgdbCodec.Model.ValueIndex
 /-
   Line-protocol driver (`codecmodel`).  One output line per input line.
   Streams: `enc` / `dec` / `tovec` (C20, C21), `vst` / `vld` / `kv` (C12), `tdv` / `fde` / `rt` /
@@ -198,22 +199,51 @@ def stepSer (m : Mode) (toks : List String) : String :=
     | _, _ => "bad-op"
   | _ => "bad-op"
 
-partial def loop (m : Mode) (hin hout : IO.FS.Stream) : IO Unit := do
+/-- per-case state of the `kv` stream (C12): the abstract store and the 32-byte records written -/
+structure KvState where
+  store : Store := Store.empty
+  recs : List (List Nat) := []
+
+def showKV (m : Mode) (st : Store) (bytes : List Nat) (sep : String) : Option String :=
+  match loadKV m bytes st with
+  | .ok (k, v) => some (showVal k ++ sep ++ showVal v)
+  | _ => none
+
+def stepKv (m : Mode) (s : KvState) (toks : List String) : KvState × String :=
+  match toks with
+  | ["kv", k, v] =>
+    match parseVal k, parseVal v with
+    | some k, some v =>
+      match storeKV k v s.store with
+      | some (bytes, st') =>
+        let s' : KvState := { store := st', recs := s.recs ++ [bytes] }
+        (s', showOutcome (fun (r : Val × Val) => showVal r.1 ++ " " ++ showVal r.2) (loadKV m bytes st'))
+      | none => (s, "bad-op")
+    | _, _ => (s, "bad-op")
+  | ["reopen"] =>
+    let parts := s.recs.map fun b => showKV m s.store b "="
+    if parts.all Option.isSome then
+      (s, String.intercalate " " ("ok" :: parts.filterMap id))
+    else (s, "err:InvalidIndex")
+  | _ => (s, "bad-op")
+
+partial def loop (m : Mode) (hin hout : IO.FS.Stream) (kv : KvState) : IO Unit := do
   let line ← hin.getLine
   if line.isEmpty then
     hout.flush
   else
     let toks := (line.trimAscii.toString.splitOn " ").filter (· ≠ "")
-    let out :=
+    let (kv', out) :=
       match toks with
-      | ["case", n] => "case " ++ n
-      | "enc" :: _ | "dec" :: _ | "tovec" :: _ => stepSer m toks
-      | _ => "bad-op"
+      | ["case", n] => (({} : KvState), "case " ++ n)
+      | "enc" :: _ | "dec" :: _ | "tovec" :: _ => (kv, stepSer m toks)
+      | "kv" :: _ | "reopen" :: _ => stepKv m kv toks
+      | _ => (kv, "bad-op")
     hout.putStrLn out
-    loop m hin hout
+    loop m hin hout kv'
 
 def main (args : List String) : IO Unit := do
   let m := if args.contains "--legacy" then Mode.legacy else Mode.fixed
   let hin ← IO.getStdin
   let hout ← IO.getStdout
-  loop m hin hout
+  loop m hin hout {}
